@@ -82,6 +82,8 @@ def convert(v):
 
 
 def run_case(case):
+    if case[0] == 'wide':
+        return run_wide(case)
     _, sn, origin, over, target = case[:5]
     same = len(case) > 5 and case[5] == 'same-sheet-name'
     merged = len(case) > 5 and case[5] == 'merged'          # the loaded sheet has merged cells inside an overridden block
@@ -235,6 +237,88 @@ def run_case(case):
     return result(ex, sorted(oc) + ['write:%s:%s' % (target, 'ok' if not fails else 'fail')], fails[:8])
 
 
+def wide_cases(tier):
+    """whole-row / whole-column nodes spanning more than one row / column: the node covers far more cells than are populated."""
+    for kind in (('rows', 'row1') if tier == 'quick' else ('rows', 'row1', 'cols', 'col1')):
+        for target in ('fresh', 'loaded', 'disk'):
+            if kind.startswith('col') and target != 'disk':
+                continue        # 2 x 1048576 written cells per book: one target only
+            yield ['wide', kind, target]
+
+
+WIDE = {'rows': ('=SUM(5:6)', 2, 16384), 'row1': ('=SUM(5:5)', 1, 16384), 'cols': ('=SUM(A:B)', 1048576, 2), 'col1': ('=SUM(B:B)', 1048576, 1)}
+
+
+def run_wide(case):
+    _, kind, target = case
+    import formulas, openpyxl
+    import numpy as np
+    import schedula as sh
+    from formulas.ranges import Ranges
+    from xl import wbspec as X
+    from xl.evalcell import exc_name
+    desc = dict(kind=kind, target=target)
+    fails, ex = [], 0
+    pop = {'A1': 1, 'B1': 10, 'A2': 2, 'B2': 20, 'A3': 3, 'B3': 30, 'A5': 100, 'B5': 200, 'C5': 300, 'A6': 400, 'B6': 500, 'C6': 600, 'E9': 'keep'}
+    total = {'rows': 2100, 'row1': 600, 'cols': 1266, 'col1': 760}[kind]
+    cwd = os.getcwd()
+    with X.Scratch() as d:
+        try:
+            wb = openpyxl.Workbook()
+            ws = wb.active
+            ws.title = 'S'
+            for k, v in pop.items():
+                ws[k] = v
+            ws['H20'] = WIDE[kind][0]
+            wb.save(os.path.join(d, 'w.xlsx'))
+            os.chdir(d)
+            m = formulas.ExcelModel().loads('w.xlsx').finish()
+            sol = m.calculate()
+            if target == 'fresh':
+                books = m.write(solution=sol)
+            elif target == 'loaded':
+                books = m.write(books=m.books, solution=sol)
+            else:
+                out = os.path.join(d, 'out')
+                m.write(solution=sol, dirpath=out)
+                diff = m.compare(os.path.join(out, 'W.XLSX'), solution=sol)
+                if diff:
+                    fails.append(Fail('compare-reports-difference', got=str(diff[:2])[:200], exp='[]', **desc))
+                books = {'W.XLSX': {formulas.BOOK: openpyxl.load_workbook(os.path.join(out, 'W.XLSX'))}}
+            ex += 1
+        except Exception as e:
+            os.chdir(cwd)
+            return result(ex + 1, ['escape'], [Fail('escape', got='%s:%s' % (exc_name(e), str(e)[:150]), exp='write succeeds', **desc)])
+        finally:
+            os.chdir(cwd)
+        wsw = [v[formulas.BOOK] for k, v in books.items() if k.upper() == 'W.XLSX'][0]['S']
+        want = dict(pop, H20=total)
+        if target != 'loaded':
+            want.pop('E9')          # not part of the model
+        for k, v in sorted(want.items()):
+            ex += 1
+            got = wsw[k].value
+            if got != v or wsw[k].data_type == 'f':
+                fails.append(Fail('cell-differs', got=repr(got), exp=repr(v), coord=k, wide=True, **desc))
+        # every cell of the wide node inside the window A1:Z60 (the rest of the node is blank)
+        for k, r in sol.items():
+            if isinstance(k, sh.Token) or not isinstance(r, Ranges):
+                continue
+            g = r.ranges[0]
+            val = np.asarray(r.value, object)
+            if val.shape != WIDE[kind][1:]:
+                continue
+            for i in range(min(val.shape[0], 60)):
+                for j in range(min(val.shape[1], 26)):
+                    coord = W.coord(max(g['n1'], 1) + j, max(int(g['r1']), 1) + i)     # whole rows start at column 0, whole columns at row 0
+                    ex += 1
+                    wantv, got = convert(val[i, j]), wsw[coord].value
+                    if not (got in wantv or (None in wantv and got in (None, ''))):
+                        fails.append(Fail('cell-differs', got=repr(got), exp=repr(wantv), coord=coord, node=k, wide=True, **desc))
+    return result(ex, ['wide:%s:%s:%s' % (kind, target, 'ok' if not fails else 'fail')], fails[:8])
+
+
 def run(ctx):
     ctx.explore(run_case, cases(ctx.tier), chunksize=1, label='write_cases')
+    ctx.explore(run_case, wide_cases(ctx.tier), chunksize=1, label='whole_row_and_column_nodes', nproc=4)
     return {}
